@@ -139,9 +139,9 @@ def main():
     known = load_known()
     kf_obl = {}          # oid -> finding
     for kf in known['findings']:
-        if prop in kf['properties']:
-            for oid in kf.get('obligations', []):
-                kf_obl[oid] = kf
+        # a recorded finding is keyed by its obligation / failure predicate, not by the property whose check meets it
+        for oid in kf.get('obligations', []):
+            kf_obl[oid] = kf
     # ---- 1. contracts (kinds A/B/C/D3) -------------------------------------------------
     pairs = list(P.get('contracts', []))
     os.environ['PYVC_EXCLUSIONS'] = json.dumps({oid: [kf['id'], kf['exclude']] for oid, kf in kf_obl.items()})
@@ -284,7 +284,7 @@ def main():
 def explain_failure(known, prop, f):
     """-> list of recorded findings that explain stand-in failure record f (empty: unlisted -> violation).
     A record whose `quirk` field names recorded quirks is explained only if *every* part is listed."""
-    mine = [kf for kf in known['findings'] if prop in kf['properties']]
+    mine = list(known['findings'])
     q = f.get('quirk')
     if q:
         hits = []
